@@ -1028,6 +1028,31 @@ def flat_ellipsoid_prim_pair(rng):
     return s1, s2, meta
 
 
+def moved_lattice_pair(rng):
+    """A lattice scene under a random rigid motion (class of finding F-N3): two colliders with lattice sizes, poses and centres
+    (harness/narrow.py's "lattice" stream; mostly a cube mesh / hull / box against a flat ellipse / disk), placed at a plane
+    gap of +-1e-6 / +-1e-3 / 0 / 1e-9 / 0.1 along a lattice direction, then BOTH moved by one random rotation and a translation
+    of up to 25.  The Minkowski difference keeps its big flat faces, parallel edges and (nearly) coplanar support points, but
+    none of the exact zeros of the unmoved scene survives: GJK's 4-point simplices are almost flat with the origin within
+    1e-6 of their plane, and the sign tests of the simplex projections are decided by the last bits."""
+    poly = ["mesh", "hull", "box"]
+    other = ["ellipse", "disk", "cylinder", "cone", "box", "mesh", "hull", "capsule", "ellipsoid", "sphere"]
+    k1 = rng.choice(poly)
+    k2 = rng.choice(["ellipse", "disk"]) if rng.random() < 0.6 else rng.choice(other)
+    if rng.random() < 0.5:
+        k1, k2 = k2, k1
+    s1 = nw.gen_collider(rng, k1, "lattice", margin_prob=0.0)
+    s2 = nw.gen_collider(rng, k2, "lattice", margin_prob=0.0)
+    u = nw.rand_unit(rng, "lattice")
+    g = rng.choice([1e-6, -1e-6, 1e-6, -1e-6, 1e-3, -1e-3, 0.1, 0.0, 1e-9])
+    s2 = nw.translate_spec(s2, (g + nw.support_value(s1, u) + nw.support_value(s2, -u)) * u)
+    Rm = nw.rand_rotation(rng, "random")
+    t = np.array([rng.uniform(-25.0, 25.0) for _ in range(3)])
+    m1, m2 = nw.transform_spec(s1, Rm, t, 1.0), nw.transform_spec(s2, Rm, t, 1.0)
+    # no "gap"/"dir" in meta: the plane gap is not the distance, and the construction's support points are no witnesses
+    return m1, m2, dict(stream="moved_lattice", kinds=[k1, k2], plane_gap=g, plane_dir=(np.array(Rm) @ np.array(u)).tolist())
+
+
 def coq_eval_retry(pid, header, exprs, tag, per_file, rebuild, timeout=1500):
     """cm.coq_eval_lines; if another build replaced a dependency between our build and this evaluation
     ("inconsistent assumptions"), rebuild the given targets once and retry"""
